@@ -37,7 +37,7 @@ Theorem C11_signed_semantics :
   forall N x y, 0 < N -> 0 <= x < 2 ^ N -> 0 <= y < 2 ^ N ->
     (if y =? 0 then 0 else bvsdiv N x y) = exact_sdiv N x y /\
     (if y =? 0 then 0 else bvsrem N x y) = exact_smod N x y.
-Proof. intros N x y HN Hx Hy. split; [exact (sdiv_exact N x y HN Hx Hy) | exact (srem_exact N x y HN Hx Hy)]. Qed.
+Proof. exact signed_semantics. Qed.
 Print Assumptions C11_signed_semantics.
 
 (* no silent non-application: every declaration that fits a rule IS rewritten to the
@@ -72,7 +72,7 @@ Theorem C11_refine_only :
                      c = inst op ns (rule_decl r)) /\
     (exists name args ret, c = SList [Atom "declare-fun"; Atom name; args; ret] /\
                            strip_prefix "f_evm_" name <> None).
-Proof. intros c H. split; [exact (refine_cmd_changed c H) | exact (refine_only_decl c H)]. Qed.
+Proof. exact refine_only. Qed.
 Print Assumptions C11_refine_only.
 
 (* the same on the text of a line (the regex demands the exact one-line spelling) *)
@@ -87,7 +87,7 @@ Print Assumptions C11_refine_only_text.
 Theorem C11_refine_keeps_asserts :
   (forall body, refine_cmd (SList (Atom "assert" :: body)) = SList (Atom "assert" :: body)) /\
   (forall q, snd (refine_query q) = snd q).
-Proof. split; [exact refine_assert_unchanged | exact refine_query_ids]. Qed.
+Proof. exact refine_keeps_asserts. Qed.
 Print Assumptions C11_refine_keeps_asserts.
 
 (* f_evm_exp stays uninterpreted, whatever the width *)
@@ -120,7 +120,7 @@ Theorem C11_dump_text :
       (unlines (map render dump_cached_pre_sx) ++ smtlib ++ nl ++
        unlines (map render (dump_named_cmds ids)) ++
        unlines (map render dump_cached_post_sx))%string.
-Proof. intros. split; [apply dump_text_plain | apply dump_text_cached]. Qed.
+Proof. exact dump_text_both. Qed.
 Print Assumptions C11_dump_text.
 
 (* none dropped, altered or added: for every life of a path (append, branch+activate,
@@ -163,7 +163,7 @@ Theorem C11_slicing_keeps_conditions :
   forall (cond : Type) (p q parent : path cond) vs,
     (slice cond p vs = Some q -> conditions q = conditions p) /\
     conditions (extend_path cond p parent) = conditions parent.
-Proof. intros. split; [apply slice_conds | apply extend_path_conds]. Qed.
+Proof. exact slicing_keeps_conditions. Qed.
 Print Assumptions C11_slicing_keeps_conditions.
 
 (* non-vacuity: the rules really rewrite the 264-bit remainder abstraction, the result
